@@ -130,11 +130,66 @@ def one(ctx, i):
     compare(ctx, cfg, pg, 45 if quick else 130, rng)
 
 
+def survival_n2(cfg, t):
+    """closed form for two lineages in one deme under Kingman: P(T > t) = exp(-int_0^t ds / N(s))"""
+    name = list(cfg['n'])[0]
+    eps = cfg['epochs']
+    acc = 0.0
+    for i, e in enumerate(eps):
+        a = e['start']
+        b = eps[i + 1]['start'] if i + 1 < len(eps) else math.inf
+        if t <= a:
+            break
+        acc += (min(t, b) - a) / e['sizes'][name]
+    return math.exp(-acc)
+
+
+def quantile_family(ctx, i):
+    """many short epochs (several boundaries inside one doubling / bisection step of the quantile search), two lineages in one
+    deme: |F(quantile(q)) - q| <= 1e-5 with F the closed form AND the real cdf"""
+    pg = C.import_phasegen()
+    rng = random.Random(f'{ctx.seed}-c03-q-{i}')
+    name = rng.choice(rng.choice(gen.NAME_SETS))
+    k = rng.randint(3, 6)
+    t, eps = 0.0, []
+    for j in range(k):
+        eps.append(dict(start=t, sizes={name: float(2.0 ** rng.randint(-4, 5))}, mig={}))
+        t += rng.choice([0.0625, 0.125, 0.1875, 0.25, 0.4375, 0.75, 1.5])
+    cfg = dict(n={name: 2}, model=('kingman',), epochs=eps, loci=1)
+    coal = conv.make_coalescent(pg, cfg)
+    th = coal.tree_height
+    ctx.case(dict(cfg=cfg, family='quantile'), ('q', gen.cfg_key(cfg)))
+    ctx.count(f'quantile-family-epochs{k}')
+    for q in (0.01, 0.3, 0.5, 0.8, 0.97, rng.choice([0.1, 0.6, 0.9, 0.999])):
+        with C.LogCapture() as lc:
+            tq = float(th.quantile(q))
+            Fr = float(th.cdf(tq))
+        if lc.records:
+            ctx.count('warned'); continue
+        Fc = 1.0 - survival_n2(cfg, tq)
+        if not (abs(Fc - q) <= 1.2e-5 and abs(Fr - q) <= 1.2e-5):
+            ctx.violation('quantile', cfg=cfg, q=q, returned=tq, cdf_at_returned=Fc, real_cdf_at_returned=Fr, tolerance=1.2e-5,
+                          oracle='closed form 1 - exp(-int ds/N(s)) for two lineages in one deme')
+            return
+        ctx.count('quantiles')
+
+
 def run(ctx):
     import check
     check.pmap(ctx, 'props.c03', 'one', list(range(64 if ctx.quick else 320)), case_timeout=200 if ctx.quick else 1500)
+    check.pmap(ctx, 'props.c03', 'quantile_family', list(range(96 if ctx.quick else 600)), case_timeout=200)
 
 
 def replay(ctx, payload):
     pg = C.import_phasegen()
+    if 'real_cdf_at_returned' in payload:
+        cfg = conv.cfg_from_json(payload['cfg'])
+        th = conv.make_coalescent(pg, cfg).tree_height
+        q = float(payload['q'])
+        tq = float(th.quantile(q))
+        Fc, Fr = 1.0 - survival_n2(cfg, tq), float(th.cdf(tq))
+        ctx.case(dict(cfg=cfg), 'replay')
+        if not (abs(Fc - q) <= 1.2e-5 and abs(Fr - q) <= 1.2e-5):
+            ctx.violation('quantile', cfg=cfg, q=q, returned=tq, cdf_at_returned=Fc, real_cdf_at_returned=Fr, tolerance=1.2e-5)
+        return
     compare(ctx, conv.cfg_from_json(payload['cfg']), pg, 400, random.Random(0))
